@@ -225,14 +225,14 @@ def correspond(rng, tier, driver):
     res.cases = cases
     lines, meta = [], []
     for case in cases:
+        f = pc.case_function(case)
+        _, raw, prox = pc.case_operands(case)
         try:
-            line_n, T = pm.request(case, placement="none")
-            line_p, T2 = pm.request(case)
+            line_n, T = pm.request(case, placement="none", raw=raw)
+            line_p, T2 = pm.request(case, raw=raw)
         except Exception as e:       # noqa
             res.disagreements.append({"case": case, "real": "tabulation failed", "model": "%s: %s" % (type(e).__name__, e)})
             continue
-        f = pc.case_function(case)
-        _, raw, prox = pc.case_operands(case)
         real = pc.run(f, *raw)
         got = pc.run(f, *prox)
         lines += [line_n, line_p]
